@@ -1,0 +1,73 @@
+//go:build verif
+
+package ruleguard
+
+import (
+	"go/ast"
+	"go/types"
+
+	"github.com/quasilyte/gogrep/nodetag"
+)
+
+// VerifWalkEvent is one visit of the engine's AST walker together with the walk-scoped
+// context that a filter would observe at that moment.
+type VerifWalkEvent struct {
+	Node ast.Node
+	Tag  int
+	Dead bool
+	Func *ast.FuncDecl
+	Path []ast.Node // copy of the node path (ancestors, then the node itself)
+}
+
+// VerifWalkState is the walk-scoped context before/after a walk.
+type VerifWalkState struct {
+	Dead bool
+	Func *ast.FuncDecl
+	Path []ast.Node
+}
+
+// VerifWalkEvents runs the engine's own astWalker over root, set up the way rulesRunner.run does
+// (shared filterParams and nodePath), starting from the given context, and records every visit.
+// If panicAt >= 0 the visit callback panics at that visit index (as a user's Report callback may);
+// the panic is recovered here and reported through panicked. The context left behind is returned.
+func VerifWalkEvents(info *types.Info, root ast.Node, init VerifWalkState, panicAt int) (events []VerifWalkEvent, after VerifWalkState, panicked bool) {
+	params := &filterParams{
+		ctx:         &RunContext{Types: info},
+		deadcode:    init.Dead,
+		currentFunc: init.Func,
+	}
+	path := newNodePath()
+	for _, n := range init.Path {
+		path.Push(n)
+	}
+	params.nodePath = path
+	var w astWalker
+	w.nodePath = path
+	w.filterParams = params
+	func() {
+		defer func() {
+			if r := recover(); r != nil {
+				panicked = true
+			}
+		}()
+		w.Walk(root, func(n ast.Node, tag nodetag.Value) {
+			events = append(events, VerifWalkEvent{
+				Node: n,
+				Tag:  int(tag),
+				Dead: params.deadcode,
+				Func: params.currentFunc,
+				Path: append([]ast.Node(nil), path.stack...),
+			})
+			if panicAt >= 0 && len(events)-1 == panicAt {
+				panic("verif: callback panic")
+			}
+		})
+	}()
+	after = VerifWalkState{Dead: params.deadcode, Func: params.currentFunc, Path: append([]ast.Node(nil), path.stack...)}
+	return events, after, panicked
+}
+
+// VerifNodeTags exposes the numeric values of gogrep's node tags used for bucketing.
+func VerifNodeTags() (numBuckets, stmtList, exprList, declList int) {
+	return int(nodetag.NumBuckets), int(nodetag.StmtList), int(nodetag.ExprList), int(nodetag.DeclList)
+}
